@@ -61,6 +61,8 @@ func convertToComplex(other Object) (Complex, bool) {
 	return 0, false
 }
 
+var complexDivisionByZero = ExceptionNewf(ZeroDivisionError, "complex division by zero")
+
 // Convert the other operand of a complex arithmetic operation to a Complex
 //
 // Returns ok as to whether the conversion worked or not, and the
@@ -155,6 +157,9 @@ func (a Complex) M__truediv__(other Object) (Object, error) {
 	if b, ok, err := complexOperand(other); err != nil {
 		return nil, err
 	} else if ok {
+		if b == 0 {
+			return nil, complexDivisionByZero
+		}
 		return Complex(a / b), nil
 	}
 	return NotImplemented, nil
@@ -164,6 +169,9 @@ func (a Complex) M__rtruediv__(other Object) (Object, error) {
 	if b, ok, err := complexOperand(other); err != nil {
 		return nil, err
 	} else if ok {
+		if a == 0 {
+			return nil, complexDivisionByZero
+		}
 		return Complex(b / a), nil
 	}
 	return NotImplemented, nil
